@@ -1,4 +1,4 @@
-import GrinVerif.Lemmas.PoolHeight
+import GrinVerif.Lemmas.PoolFee
 /-! C14 — the transaction pool always holds a jointly valid, fee-paying, mineable set.
 
 Model: `GrinVerif/Model/Pool.lean` (pool/src/pool.rs, pool/src/transaction_pool.rs).
@@ -8,7 +8,7 @@ no commitment ends up twice) and every transaction conserves value.  Histories: 
 `step`, `run` — submissions (stem / fluff, any transaction), new heads with `reconcile_block`
 (any new unspent set: next block or reorg), `reconcile_reorg_cache`, evictions, cache truncation.
 
-What is proved, and what is not (eviction, over-capacity admission, reorg to a lower height) is
+What is proved, and what is not (eviction, reorg to a lower height) is
 stated explicitly below, each with a kernel-checked witness.  A fourth defect found by this check
 (the mineable set failed to assemble when a commitment is re-created inside the pool) is repaired
 in the code; the model follows the repair and `mineable_set_total` states it.
@@ -173,18 +173,47 @@ theorem evict_breaks_single_parent_chain :
 
 /-! ## admission -/
 
-/-- fee below the minimum for the weight (`shifted_fee < weight × accept_fee_base`), txpool not
-over `max_pool_size`: refused and the pool is unchanged.  (`entryOf`: the transaction itself for
-stem, its deaggregated form for fluff; both stem values because a stem transaction already in the
-stempool is re-submitted as fluff.) -/
+/-- the submitted transaction itself is what the pool considers when it has at most one kernel
+(no deaggregation) -/
+theorem entryOf_single {s : TxPool} {src : Src} {tx : Tx} (hk : tx.kers.length ≤ 1) (st : Bool) :
+    entryOf s src tx st = .ok { tx, src } := by
+  unfold entryOf TxPool.deaggregateTx
+  have : ¬ (tx.kers.length > 1) := by omega
+  cases st <;> simp [this]
+
+/-- **fee below the minimum for the weight** (`shifted_fee < weight × accept_fee_base`): refused
+and the pool is unchanged — in EVERY fill state: `is_acceptable` checks the fee before the
+capacity (3aef11dd9; before, an under-paying transaction was admitted while the txpool was over
+`max_pool_size`: finding C14-low-fee-admitted-over-capacity, fixed).  (`entryOf`: the transaction
+itself for stem, its deaggregated form for fluff; both stem values because a stem transaction
+already in the stempool is re-submitted as fluff.) -/
 theorem admission_low_fee {c : Ctx} {s : TxPool} (src : Src) (tx : Tx) (stem stemOk : Bool)
-    (hcap : s.txpool.length ≤ c.cfg.maxPool)
     (hfee : ∀ st e, entryOf s src tx st = .ok e → e.tx.shiftedFee < e.tx.acceptFee c.cfg) :
     ∃ er, s.addToPool c src tx stem stemOk = (s, some er) := by
   unfold TxPool.addToPool
   split
-  · exact addCore_refuses_low_fee src tx false stemOk hcap (hfee false)
-  · exact addCore_refuses_low_fee src tx stem stemOk hcap (hfee stem)
+  · exact addCore_refuses_low_fee src tx false stemOk (hfee false)
+  · exact addCore_refuses_low_fee src tx stem stemOk (hfee stem)
+
+/-- **fees_always_paid** — the minimum-fee clause at full strength: after ANY history
+(submissions on both paths, admissions at capacity with the eviction that follows, explicit
+evictions, blocks and reorgs with any unspent set, reorg-cache replays, truncations) every entry
+of the txpool, of the stempool AND of the reorg cache pays at least the minimum fee for its
+weight: `accept_fee = weight × accept_fee_base ≤ shifted_fee`. -/
+theorem fees_always_paid (c : Ctx) (ops : List Op) :
+    ∀ e, (e ∈ (run (c, {}) ops).2.txpool ∨ e ∈ (run (c, {}) ops).2.stempool ∨ e ∈ (run (c, {}) ops).2.cache) →
+      e.tx.weight * c.cfg.feeBase ≤ e.tx.shiftedFee := by
+  intro e he
+  have h := run_allPaid (c, {}) ops (fun e he => by simp at he) e he
+  unfold Paid Tx.acceptFee at h
+  rw [run_cfg] at h
+  exact h
+
+/-- one operation keeps it, from any state in which it holds (the invariant behind
+`fees_always_paid`) -/
+theorem fees_paid_step (cs : Ctx × TxPool) (op : Op) (h : AllPaid cs.1 cs.2) :
+    AllPaid (step cs op).1 (step cs op).2 :=
+  step_allPaid cs op h
 
 /-- standalone-invalid transactions (bad signature, range proof, kernel sum, duplicate or
 cut-through violating body, coinbase kernel, over the weight limit) are refused and the pool is
@@ -213,19 +242,29 @@ example : (({} : TxPool).addToPool wc .broadcast badSigTx true true).2 = some "I
 example : (({} : TxPool).addToPool wc .broadcast heavyTx false true).2 = some "InvalidTx:TooHeavy" := by decide
 example : (({} : TxPool).addToPool wc .broadcast wD false true).2 = none := by decide
 
-/-- **the capacity hypothesis of `admission_low_fee` is needed**: `is_acceptable` reports
-`OverCapacity` before it looks at the fee and `add_to_pool` reads that as "admit, then evict".
-Here (`max_pool_size = 1`, A and B pooled) a transaction paying fee 1 for weight 26 is admitted,
-and since it has two parents the eviction removes B instead of it. -/
+/-- the history that used to break the fee clause (`max_pool_size = 1`, A and B pooled: the
+txpool is over capacity; a child of both paying fee 1 for weight 26): it is refused with `LowFee`
+on both paths, the pool and the reorg cache are unchanged.  A well-paying transaction is still
+admitted in that state (and something is evicted). -/
 def lc : Ctx := { wc with cfg := { maxPool := 1, feeBase := 1 }, outs := wc.outs ++ [od 15 1874] }
 def lowChild : Tx := { ins := [11, 12], outs := [15], kers := [pk 5 1] }
 def lOps : List Op := [.submit .broadcast wA false true, .submit .broadcast wB false true]
 
-theorem low_fee_admitted_over_capacity :
+theorem low_fee_refused_over_capacity :
+    (run (lc, {}) lOps).2.txpool.length > lc.cfg.maxPool ∧
     lowChild.shiftedFee < lowChild.acceptFee lc.cfg ∧
-    ((run (lc, {}) lOps).2.addToPool lc .broadcast lowChild false true).2 = none ∧
-    ((run (lc, {}) lOps).2.addToPool lc .broadcast lowChild false true).1.txpool.txs = [wA, lowChild] := by
+    (run (lc, {}) lOps).2.addToPool lc .broadcast lowChild false true = ((run (lc, {}) lOps).2, some "LowFee") ∧
+    (run (lc, {}) lOps).2.addToPool lc .pushApi lowChild true true = ((run (lc, {}) lOps).2, some "LowFee") ∧
+    ((run (lc, {}) lOps).2.addToPool lc .broadcast wD false true).2 = none := by
   decide
+
+/-- non-vacuity of `admission_low_fee` in that over-capacity state -/
+example : ∃ er, (run (lc, {}) lOps).2.addToPool lc .broadcast lowChild false true = ((run (lc, {}) lOps).2, some er) :=
+  admission_low_fee .broadcast lowChild false true (fun st e he => by
+    rw [entryOf_single (by decide) st] at he
+    simp only [Except.ok.injEq] at he
+    subst he
+    decide)
 
 /-! ## inputs of pooled transactions across evictions at capacity
 
@@ -245,14 +284,6 @@ theorem orphans_decides_avail (utxo : List Nat) (txs : List Tx) : orphans utxo t
 theorem jointlyValid_avail {outs : List GV.Chain.OutDef} {utxo : List Nat} {txs : List Tx}
     (h : JointlyValid outs utxo txs) : Avail utxo txs :=
   avail_of_netOK ((jointlyValid_iff outs utxo txs).mp h).1
-
-/-- the submitted transaction itself is what the pool considers when it has at most one kernel
-(no deaggregation) -/
-theorem entryOf_single {s : TxPool} {src : Src} {tx : Tx} (hk : tx.kers.length ≤ 1) (st : Bool) :
-    entryOf s src tx st = .ok { tx, src } := by
-  unfold entryOf TxPool.deaggregateTx
-  have : ¬ (tx.kers.length > 1) := by omega
-  cases st <;> simp [this]
 
 /-- **a transaction with an input that exists nowhere is refused and the pool is unchanged** —
 from ANY state, whatever happened before.  `entryOf`: the transaction itself (stem) or its
